@@ -883,3 +883,24 @@ class TrajectoryLength3(Contract):
             ('table', table_inv(S)),
         ] + [('cache', p) for p in cache_inv(S, inst=[S.sk(0)])], variant=lambda L: L.time_sequence.size() - 1 - L.i,
             terms=lambda L: [L.i, L.i + 1])
+
+
+@register
+class TrajectoryLength1(Contract):
+    """getTrajectoryLength(dt) forwards to the three-argument form on [first breakpoint, last breakpoint]"""
+    key = 'PPolyND.getTrajectoryLength'
+    nparams = 1
+
+    def spec(self, S):
+        S.i2r_axioms()
+        S.i2r_const(1 << 24)
+        bp = S.v('breakpoints_')
+        s, e, dt = bp.at(0), bp.at(bp.size() - 1), S.dt
+        eval_requires(S)
+        S.requires((bp.size() >= 1) & (dt > 0) & (e >= s) & ((e - s) < dt * Fraction(1 << 24)), 'preconditions_of_the_general_form')
+        S.terms(0, S.num_segments_ - 1, S.num_segments_, S.sk(0) + 1)
+        S.assigns(*[S.v(x) for x in CACHE_STATE])
+        S.ensures(S.result >= 0, 'length_is_non_negative')
+        S.ensures(table_inv(S), 'table')
+        for p in cache_inv(S, inst=[S.sk(0)]):
+            S.ensures(p, 'cache')
